@@ -8,7 +8,7 @@ include!("/verif/spec/dbus.rs");
 // requires  align ∈ {1,2,4,8}   (every caller passes a D-Bus/GVariant alignment; see alignment units)
 // ensures   r < align  ∧  (value + r) ≡ 0 (mod align)        (computed without wrap in u128)
 //
-// @unit C01.padding_for_n_bytes props=C01,C02,C03,C05 kind=complete fn=zvariant::utils::padding_for_n_bytes timeout=120
+// @unit C01.padding_for_n_bytes props=C01,C02,C03,C05 kind=complete fn=zvariant::utils::padding_for_n_bytes timeout=300
 #[cfg(not(verif_skip_c01_padding_for_n_bytes__complete))]
 #[cfg(kani)]
 #[kani::proof]
@@ -25,7 +25,7 @@ fn c01_padding_for_n_bytes__complete() {
 }
 
 // ---- canary: a deliberately false obligation; the runner requires it to FAIL on every run ------
-// @unit CANARY.zvariant props=CANARY kind=complete expect=fail timeout=120
+// @unit CANARY.zvariant props=CANARY kind=complete expect=fail timeout=300
 #[cfg(not(verif_skip_canary_zvariant_must_fail))]
 #[cfg(kani)]
 #[kani::proof]
